@@ -2,6 +2,8 @@
 package selftest
 
 import (
+	"fmt"
+
 	"github.com/obolnetwork/charon/zzverif/vrt"
 )
 
@@ -176,5 +178,42 @@ func T7() {
 	if r {
 		vrt.Assert("two sevens", (xs[0] == 7 && xs[1] == 7) || (xs[0] == 7 && xs[2] == 7) || (xs[0] == 7 && xs[3] == 7) || (xs[1] == 7 && xs[2] == 7) || (xs[1] == 7 && xs[3] == 7) || (xs[2] == 7 && xs[3] == 7))
 	}
+	vrt.Reach("end")
+}
+
+func drainLoop(ch chan int) (int, error) {
+	n := 0
+	for {
+		var got bool
+		select {
+		case v := <-ch:
+			if v == 99 {
+				return n, errBad
+			}
+			n += v
+			got = true
+		default:
+		}
+		if !got {
+			break
+		}
+	}
+	return n, nil
+}
+
+var errBad = fmt.Errorf("bad")
+
+// T8: infinite for with select/default and break; result must be the sum of queued values.
+func T8() {
+	ch := make(chan int, 3)
+	a := vrt.Int("a")
+	vrt.Assume(a >= 0 && a < 50)
+	ch <- a
+	if vrt.Bool("two") {
+		ch <- 5
+	}
+	n, err := drainLoop(ch)
+	vrt.Assert("noerr", err == nil)
+	vrt.Assert("sum", n == a || n == a+5)
 	vrt.Reach("end")
 }
